@@ -193,8 +193,7 @@ def applyAct (s : SSt) (a : Act) : SSt × List (Int × Nat) :=
   | .raise sig => if validSig sig then (raiseS s sig, []) else (s, [])
   | .exit pid status =>
     if !validPid pid then (s, []) else
-    if s.children.any (·.pid = pid) then
-      ({ s with children := s.children.map fun d => if d.pid = pid then { d with exited := true, status := status } else d }, [])
+    if s.children.any (·.pid = pid) then (s, [])
     else ({ s with children := s.children ++ [{ pid := pid, exited := true, reaped := false, status := status }] }, [])
   | .nop => (s, [])
 
@@ -414,10 +413,16 @@ def checkTick (s : SSt) (hang : Bool) (evs : List PEv) (cut : Bool) : Except Str
       match sigWant.find? (fun w => stillLive w && !s.tk.sigInvoked.contains w.k) with
       | some w => .error s!"signal {w.signum} was delivered during the wait of this iteration and signal watch {w.k} was not invoked"
       | none => .ok s
-  | _ => if cut then .ok s else .error "no wait in this iteration"
+  | _ =>
+    if cut then
+      -- died before the wait returned: a signal raised inside the wait with nobody watching it?
+      .ok (s.inpoll.foldl raiseS { s with inpoll := [] })
+    else .error "no wait in this iteration"
 
 /-- Destruction: every remaining watch that asked for it is notified exactly once. -/
 def checkDestroy (s : SSt) (evs : List PEv) (cut : Bool) : Except String SSt :=
+  -- a pending signal whose watchers go away with the instance reaches the process with its default action
+  if s.raised.any sigTerminates then .ok { s with misuse := true, dead := true } else
   if cut then .ok s else
   let cbs := evs.filterMap fun e => match e with | .cb k f _ => some (k, f) | _ => none
   match cbs.find? (fun (_, f) => f &&& EV_FIRE ≠ 0) with
@@ -444,52 +449,50 @@ def checkDestroy (s : SSt) (evs : List PEv) (cut : Bool) : Except String SSt :=
 /-- One operation line. `why` is the model's explanation of a crash it predicts (used only to word the message). -/
 def step (s : SSt) (op : Op) (impl : List String) (why : String) : SSt × String :=
   if s.crashed then (s, "") else
-  let crashMsg (how : List String) : String :=
-    s!"the library crashed ({" ".intercalate how}) on valid usage" ++ (if why.isEmpty then "" else s!": {why}")
-  match impl with
-  | "CRASH" :: rest =>
-    -- crashed before the operation produced any event
-    let s := { s with crashed := true }
-    if s.misuse || s.dead then (s, "")
-    else
-      let s' := match op with
-        | .act a => (applyAct s a).1
-        | _ => s
-      if s'.misuse then (s', "") else (s, crashMsg rest)
-  | _ =>
+  let crashMsg (how : String) : String :=
+    s!"the library crashed ({how}) on valid usage" ++ (if why.isEmpty then "" else s!": {why}")
   match op with
   | .new => ({ init with started := true }, "")
   | .bad => (s, "")
-  | .finish =>
-    if s.misuse then (s, "") else
-    if impl = ["leaks=0"] then (s, "") else (s, s!"memory was leaked ({" ".intercalate impl})" ++ (if why.isEmpty then "" else s!": {why}"))
   | _ =>
-    if s.dead then (s, "") else
-    match parseEvents impl with
-    | none => (s, s!"unparsable observation")
-    | some (evs, cut) =>
-      if s.misuse then ({ s with crashed := cut }, "") else
-      let r : Except String SSt :=
-        match op with
-        | .beh b => .ok { s with behs := s.behs ++ [b] }
-        | .act a =>
-          let (s, notes) := applyAct s a
-          if s.misuse then .ok s else
-          match expectNotes evs notes with
-          | .error e => .error e
-          | .ok rest => walk s false (rest.length + 1) rest
-        | .clock us => .ok { s with clockUs := s.clockUs + us }
-        | .ready fd bits => .ok { s with ready := (fd, bits) :: s.ready.filter (·.1 ≠ fd) }
-        | .inpoll sg => .ok { s with inpoll := s.inpoll ++ [sg] }
-        | .tick => checkTick s false evs cut
-        | .tickhang => checkTick s true evs cut
-        | .destroy => checkDestroy s evs cut
-        | _ => .ok s
-      match r with
-      | .ok s =>
-        if cut then
-          if s.misuse then ({ s with crashed := true }, "") else ({ s with crashed := true }, crashMsg ["during the operation"])
-        else (s, "")
-      | .error e => ({ s with crashed := true }, e)     -- one verdict per history: the abstract state is no longer in step
+  -- a line `CRASH …`: the process died before the operation produced any event
+  let parsed : Option (List PEv × Bool × String) :=
+    match impl with
+    | "CRASH" :: rest => some ([], true, " ".intercalate rest)
+    | _ => if op = .finish then some ([], false, "") else
+      (parseEvents impl).map fun (evs, cut) => (evs, cut, "during the operation")
+  match parsed with
+  | none => (s, "unparsable observation")
+  | some (evs, cut, how) =>
+    if s.dead && !cut then
+      if op = .finish && !s.misuse && impl ≠ ["leaks=0"] then
+        (s, s!"memory was leaked ({" ".intercalate impl})" ++ (if why.isEmpty then "" else s!": {why}"))
+      else (s, "")
+    else if s.misuse then ({ s with crashed := cut }, "") else
+    let r : Except String SSt :=
+      match op with
+      | .finish =>
+        if cut || impl = ["leaks=0"] then .ok s
+        else .error (s!"memory was leaked ({" ".intercalate impl})" ++ (if why.isEmpty then "" else s!": {why}"))
+      | .beh b => .ok { s with behs := s.behs ++ [b] }
+      | .act a =>
+        let (s, notes) := applyAct s a
+        if s.misuse then .ok s else
+        match expectNotes evs notes with
+        | .error e => .error e
+        | .ok rest => walk s false (rest.length + 1) rest
+      | .clock us => .ok { s with clockUs := s.clockUs + us }
+      | .ready fd bits => .ok { s with ready := (fd, bits) :: s.ready.filter (·.1 ≠ fd) }
+      | .inpoll sg => .ok { s with inpoll := s.inpoll ++ [sg] }
+      | .tick => checkTick s false evs cut
+      | .tickhang => checkTick s true evs cut
+      | .destroy => checkDestroy s evs cut
+      | _ => .ok s
+    match r with
+    | .ok s =>
+      if cut then
+        if s.misuse then ({ s with crashed := true }, "") else ({ s with crashed := true }, crashMsg how)
+      else (s, "")
+    | .error e => ({ s with crashed := true }, e)     -- one verdict per history: the abstract state is no longer in step
 
 end Tickit.EvLoop.Spec
